@@ -36,6 +36,17 @@ CLAIMS = {
          '(266 of 273, enumerated from the regenerated dispatcher) proved a no-op when its condition fails.',
          'Partial: the whole-step statement (only PC/IT/scratch change) is not yet a theorem; "behaves as the unconditional '
          'instruction when it passes" is proved as transparency of the guard.'),
+ 'C06': ('ARM class selection proved for all 2^32 words at the top level (A5.1 routing) and, on their whole architectural domains, '
+         'for the groups multiply (A5.2.5, incl. UNDEFINED slots), load/store word and unsigned byte (A5.3, incl. PUSH/POP single, '
+         'literal and unprivileged forms), branch/block transfer (A5.5) and data-processing immediate (A5.2.3), by a reflective '
+         'cube checker proved sound once (Proofs/Cube.v) against hand-written tables; decode is a function of the word alone by type.',
+         'Partial: the other ARM groups (data-processing register/register-shifted, miscellaneous, halfword multiply, extra '
+         'load/store, synchronization, media, coprocessor/SVC, unconditional) and operand extraction are covered by the regenerated '
+         'model and whole-step correspondence only (branch operands: C04).'),
+ 'C07': ('Thumb 16-bit class selection proved for every one of the 2^16 halfwords against the hand-written A6.2 table by '
+         'evaluation inside Coq (bound in the statement).',
+         'Partial: 32-bit Thumb class selection, operand extraction and the IT-dependent parts are covered by the regenerated '
+         'model and correspondence only (branch operands: C04).'),
  'C08': ('it_advance = ITAdvance on every state; the ITSTATE schedule for every legal (firstcond, mask) and all 256 states '
          'by exhaustive evaluation inside Coq (bound stated).',
          'Partial: per-step advance inside execute_instruction, flag-setting of 16-bit encodings in IT blocks and the '
